@@ -627,6 +627,47 @@ theorem for_next_error_unchanged (m : MapD) (tn : Name)
   simp [forLoop, hn, hb, nextLoop, invoke_fn, Beh.run, Beh.runAt, CallRes.pass]
 
 
+/-- Bytecode-level iteration (`for`, unpacking, `match`: `MakeIterator` + `IterNext`) over an object
+with `@next` or `@iterator` is the public `make_iterator` iteration — same calls, same values, same
+errors — whatever `@iterator` returns (/repo bf483d2; before it, a list or map result failed in
+`for` only: finding F-C17-2) -/
+theorem for_equals_public_iteration (m : MapD)
+    (h : (m.metaGet .Next).isSome ∨ (m.metaGet .Iterator).isSome) :
+    forLoop (.map m) = toList (.map m) := by
+  cases hn : m.metaGet .Next with
+  | some p => simp [forLoop, toList, hn]
+  | none =>
+    cases hi : m.metaGet .Iterator with
+    | some p => simp [forLoop, toList, hn, hi]
+    | none => simp [hn, hi] at h
+
+/-- the result of `@iterator` is used as an *iterable*: every iterable kind yields its elements
+(after exactly one `@iterator` call), a non-iterable result is a type error — in `for` as in the
+public path -/
+theorem iterator_result_spec (m : MapD) (ti : Name) (v : RV)
+    (hn : m.metaGet .Next = none) (hi : m.metaGet .Iterator = some (ti, .fn (.ret v))) :
+    let ev : Ev := ⟨ti, .mk .Iterator, m.av, []⟩
+    forLoop (.map m) = iterateResult [ev] (.ret (v.toAV m.av)) ∧
+    (v = .lst ∨ v = .tup ∨ v = .iter ∨ v = .gen → forLoop (.map m) = ⟨[ev], .ok (.lst [20, 21])⟩) ∧
+    (v = .rng → forLoop (.map m) = ⟨[ev], .ok (.lst [0, 1])⟩) ∧
+    (v = .innerIter →
+      forLoop (.map m) = ⟨[ev, ⟨61, .mk .Iterator, .inner false, []⟩], .ok (.lst [20, 21])⟩) ∧
+    (v = .innerNext → (forLoop (.map m)).res = .ok (.lst [10, 11])) ∧
+    ((∃ n, v = .int n) ∨ v = .null ∨ (∃ b, v = .bool b) → forLoop (.map m) = ⟨[ev], .err .type⟩) := by
+  intro ev
+  have h0 : forLoop (.map m) = iterateResult [ev] (.ret (v.toAV m.av)) := by
+    simp [forLoop, hn, hi, invoke_fn, Beh.run, Beh.runAt, ev]
+  refine ⟨h0, ?_, ?_, ?_, ?_, ?_⟩
+  · rintro (h | h | h | h) <;> subst h <;> simp [h0, RV.toAV, iterateResult]
+  · intro h; subst h; simp [h0, RV.toAV, iterateResult]
+  · intro h; subst h; simp [h0, RV.toAV, iterateResult]
+  · intro h; subst h; simp [h0, RV.toAV, iterateResult]
+  · rintro (⟨n, h⟩ | h | ⟨b, h⟩) <;> subst h <;> simp [h0, RV.toAV, iterateResult]
+
+example : forLoop (.map { top := { name := 0, src := .own { tag := 0, ops := [(.Iterator, .fn (.ret .lst))] } } })
+    = ⟨[⟨0, .mk .Iterator, .obj 0, []⟩], .ok (.lst [20, 21])⟩ := by decide
+
+
 /-- `@next_back` (used by `iterator.reversed`) is looked at only when `@next` is implemented; the
 reversed iteration then calls `@next_back` alone until it returns `null`; without `@next_back` an
 object with `@next` is not reversible -/
